@@ -632,6 +632,8 @@ func (c *c06Ctx) exponents(heavy bool) []*big.Int {
 		out = append(out, new(big.Int).Set(c.base.Q), new(big.Int).Neg(new(big.Int).Sub(c.base.Q, one)))
 	}
 	out = append(out, new(big.Int).Add(new(big.Int).Lsh(one, 256), one), c.rng.Big(200), new(big.Int).Neg(c.rng.Big(130)))
+	// word-aligned exponents (every low 64-bit word zero): 2^64, -3*2^64, 5*2^128
+	out = append(out, new(big.Int).Lsh(one, 64), new(big.Int).Neg(new(big.Int).Lsh(big.NewInt(3), 64)), new(big.Int).Lsh(big.NewInt(5), 128))
 	if c.tier == "thorough" {
 		out = append(out, new(big.Int).Neg(new(big.Int).Add(new(big.Int).Lsh(one, 300), one)), c.rng.Big(256), c.rng.Big(64),
 			new(big.Int).Lsh(one, 64), new(big.Int).Sub(new(big.Int).Lsh(one, 128), one), c.rng.Big(700))
